@@ -133,7 +133,14 @@ Clauses(r) ==
       Shape_fdiff |-> ok("fdiff") => ShapeOK(r, r.fdiff),
       Shape_grad |-> ok("grad") => ShapeOK(r, r.grad),
       Shape_gradn |-> ok("gradn") => ShapeOK(r, r.gradn),
-      Accepts        |-> \A f \in { "ndiff", "fdiff", "grad", "gradn" } : Has(r, f) => Has(r[f], "flat")
+      Accepts        |-> \A f \in { "ndiff", "fdiff", "grad", "gradn" } : Has(r, f) => Has(r[f], "flat"),
+      \* histories (EdgeHist.tla): after any history each table read on this handle is the table a freshly built
+      \* grid of the same source / selection reports, and each operator result is what the fresh grid gives
+      Fresh_edge_face_distances    |-> Has(r, "fresh") => r.fresh.efd,
+      Fresh_edge_node_distances    |-> Has(r, "fresh") => r.fresh.end,
+      Fresh_edge_face_connectivity |-> Has(r, "fresh") => r.fresh.efc,
+      Fresh_edge_node_connectivity |-> Has(r, "fresh") => r.fresh.enc,
+      OpResultFresh  |-> Has(r, "ops") => \A k \in 1..Len(r.ops) : r.ops[k].same
     ]
 
 \* MPAS dual of a PARTIAL mesh: the source describes open fans (faces with 1-2 nodes) and one-ended edges, so
@@ -185,6 +192,14 @@ GridAxisNotLast(r) ==
     /\ \A f \in { "ndiff", "fdiff", "grad", "gradn" } \cap DOMAIN r :
           Has(r[f], "err") \/ r[f].dims = LastReplaced(r, f)
 
+\* coverage facts about a history record, decided here: the subset leaves out a LOWER-indexed neighbour of a
+\* kept face (the parent's slot-0 face of a shared edge); the handle has boundary edges
+DropsLowerNeighbour(r) ==
+    Has(r, "parent_mesh") /\
+    \E f \in Range(r.sel_faces) : \E g \in 0..(Len(r.parent_mesh) - 1) :
+        g < f /\ g \notin Range(r.sel_faces) /\ Sides(r.parent_mesh[f + 1]) \cap Sides(r.parent_mesh[g + 1]) # {}
+HasBoundary(r) == \E k \in 1..Len(r.edges) : IsBoundaryRow(r.mesh, r.edges[k])
+
 Init == i \in { -b : b \in 1..NBlocks }
 Next == /\ i < 0
         /\ i' \in { k \in 1..Len(Recs) : (k - 1) \div Block = (-i) - 1 }
@@ -193,7 +208,10 @@ Judge == i > 0 =>
            LET r == Recs[i]
            IN IF Mode = "emit" THEN Emit(r)
               ELSE LET f == Failed(r)
-                   IN /\ \A c \in f : PrintT(<<"V", i, c>>)
+                   IN /\ (Has(r, "fresh") /\ ~IsDP(r) /\ EdgeTableOK(r.mesh, r.n_node, r.edges)) =>
+                           /\ (DropsLowerNeighbour(r) => PrintT(<<"C", i, "DropsLowerNeighbour">>))
+                           /\ (HasBoundary(r) => PrintT(<<"C", i, "HasBoundary">>))
+                      /\ \A c \in f : PrintT(<<"V", i, c>>)
                       /\ (("NormUnit" \in f \/ "NormIndependent" \in f \/ "NormProportional" \in f) /\ WholeArrayNorm(r))
                             => PrintT(<<"S", i, "WholeArrayNorm">>)
                       /\ ((f # {} /\ Has(r, "pos") /\ GridAxisNotLast(r)) => PrintT(<<"S", i, "GridAxisNotLast">>))
